@@ -180,7 +180,7 @@ func applyAlt(root reflect.Value, j job, dom domains) (undo func(), what string,
 	undo = func() { set(keep) }
 	setBig := func(x *gobig.Int) {
 		set(reflect.ValueOf(big.Convert(x)))
-		what = fmt.Sprintf("%s -> %s", shortInt(keep), x.String())
+		what = fmt.Sprintf("%s -> %s", shortInt(keep), shortStr(x.String()))
 	}
 	switch j.Kind {
 	case "plus1", "random", "zero", "negmod", "shift", "unshift", "nil":
@@ -285,15 +285,18 @@ func applyAlt(root reflect.Value, j job, dom domains) (undo func(), what string,
 	return
 }
 
+func shortStr(s string) string {
+	if len(s) > 24 {
+		return fmt.Sprintf("%s..%s(%d digits)", s[:10], s[len(s)-8:], len(s))
+	}
+	return s
+}
+
 func shortInt(v reflect.Value) string {
 	if v.Type() != bigPtrType || v.IsNil() {
 		return "?"
 	}
-	s := v.Interface().(*big.Int).String()
-	if len(s) > 24 {
-		return s[:10] + ".." + s[len(s)-8:]
-	}
-	return s
+	return shortStr(v.Interface().(*big.Int).String())
 }
 
 // pathString renders a concrete path like PprimeIsPrimeProof.AExpProof.InterStepsProofs[3].Bproof.Mul.Commit
